@@ -44,9 +44,10 @@ Init == \/ \E eos \in EosSet, r \in Dens, e \in Ener :
               /\ (eos.cls # "ideal_gas_eos" => s = 0)
               \* via: the EOS reaches its constants at construction ("fresh") or through its public setters after the solver
               \* has already been used once with other constants ("retuned"; classes that publish setters)
-              /\ \E via \in {"fresh", "retuned"} :
+              /\ \E via \in {"fresh", "retuned"}, p0 \in InitP :
                    /\ (via = "retuned" => eos.cls \in Retunable)
-                   /\ pb = [kind |-> "newton", eos |-> eos, symmetry |-> s, rho0 |-> r0, u0 |-> u0, via |-> via]
+                   /\ (p0[1] # 0 => s = 0 /\ eos.cls # "aluminum_eos")      \* a pre-shock pressure is admitted in planar symmetry only (documented)
+                   /\ pb = [kind |-> "newton", eos |-> eos, symmetry |-> s, rho0 |-> r0, u0 |-> u0, p0 |-> p0, via |-> via]
 Next == UNCHANGED pb
 Spec == Init /\ [][Next]_pb
 Emit == PrintT(ToJson(pb))
